@@ -272,6 +272,7 @@ pub fn transport_tail<const HL: usize>(pat: Pat, initiator: bool, stateless: boo
     let mut pair = rm_pair::<Toy<HL, 4, 4>>(pat, 0, NAME.as_bytes(), &pro);
     rm_advance::<Toy<HL, 4, 4>>(&mut pair, pat.nmsgs());
     let rm = if initiator { pair.i } else { pair.r };
+    kani::cover!(true, "C01 transport tail reached");
     let tr = TrOps::<Toy<HL, 4, 4>>::from_hs(&rm);
     let hs = snow_from_rm_a::<HL, 4, 4>(&rm, NAME, false);
     // the cipher objects the handshake state holds for transport carry the Split() keys (set by the last step)
@@ -291,7 +292,6 @@ pub fn transport_tail<const HL: usize>(pat: Pat, initiator: bool, stateless: boo
             let n: u64 = kani::any();
             kani::assume(n != u64::MAX);
             let r = ts.write_message(n, &p1, &mut m1);
-            kani::cover!(true, "C01 stateless transport reached");
             if may_write {
                 TrOps::<Toy<HL, 4, 4>>::write_at(&tr, n, &p1, &mut w1);
                 assert!(r == Ok(18) && m1 == w1, "C01: stateless transport message differs from the specification's ENCRYPT(k, n, \"\", payload)");
@@ -307,7 +307,6 @@ pub fn transport_tail<const HL: usize>(pat: Pat, initiator: bool, stateless: boo
             assert!(ts.sending_nonce() == 0 && ts.receiving_nonce() == 0, "C01: transport nonces do not start at 0");
             let r1 = ts.write_message(&p1, &mut m1);
             let r2 = ts.write_message(&p2, &mut m2);
-            kani::cover!(true, "C01 stateful transport reached");
             if may_write {
                 TrOps::<Toy<HL, 4, 4>>::write_at(&tr, 0, &p1, &mut w1);
                 TrOps::<Toy<HL, 4, 4>>::write_at(&tr, 1, &p2, &mut w2);
@@ -347,7 +346,8 @@ step_harness!(c01_q_step_kk_r0, step_read, 8, 4, 4, 2, Pat::KK, 0, 0, 34);
 step_harness!(c01_q_step_n_w0, step_write, 8, 4, 4, 2, Pat::N, 0, 0, 34);
 step_harness!(c01_q_step_xx_w1_p256shape, step_write, 8, 5, 3, 1, Pat::XX, 0, 1, 34);
 step_harness!(c01_q_step_nn_w0_hl32, step_write, 32, 4, 4, 1, Pat::NN, 0, 0, 34);
-step_harness!(c01_q_step_nnpsk0_r0_hl64, step_read, 64, 4, 4, 1, Pat::NN, 1, 0, 66);
+step_harness!(c01_t_step_nnpsk0_r0_hl64, step_read, 64, 4, 4, 1, Pat::NN, 1, 0, 66);
+step_harness!(c01_q_step_nnpsk0psk1_w0, step_write, 8, 4, 4, 1, Pat::NN, 3, 0, 34);
 step_harness!(c01_q_step_xxpsk2_w1, step_write, 8, 4, 4, 1, Pat::XX, 4, 1, 34);
 
 // thorough: generated list
